@@ -86,6 +86,8 @@ pub fn run(tier: Tier, seed: u64) -> i32 {
     let (na, nq) = names(cfg);
     let answer: Answer = vec![(nq.into(), V::Num(3)), ("i".into(), V::Num(202))];
     let script = vec![Step::Ans(answer)];
+    // the companion test: rows with X and C expansions on lines 11.. of another text
+    let companion = load(&format!("{na} {nq}\n\n\n\n\n\n\n\n\n\nX 1\nC X\n1 1\nX X\n"), &sigs, DEFAULT_BUDGET).ok();
     for k in 1..=maxk {
         if cfg == 1 && k == 4 {
             continue;
@@ -144,6 +146,21 @@ pub fn run(tier: Tier, seed: u64) -> i32 {
                         }
                     }
                 }
+                // another iterator over another test advanced between all next() calls
+                if mism.is_none() && (lay.len() <= 1 || li % 5 == 0) {
+                    if let (Ok(tc), Some(other)) = (&tc, companion.as_ref()) {
+                        match lines_with_companion(tc, &sigs, &script, other, &sigs, &script, nrows + 1) {
+                            Ok(lines) => {
+                                st.witness("companion_iterator_advanced_in_between");
+                                let want: Vec<usize> = r.items.iter().map(|i| if let RefItem::Row(rr) = i { laid.row_lines[rr.node] } else { 0 }).collect();
+                                if lines != want {
+                                    mism = Some(format!("line: with another iterator advanced in between, the rows report lines {lines:?}, expected {want:?}"));
+                                }
+                            }
+                            Err(c) => mism = Some(format!("line: interleaved run failed: {c:?}")),
+                        }
+                    }
+                }
                 // through a .dig document: lines are relative to the test's own source text
                 if mism.is_none() && (lay.len() <= 1 || li % 7 == 0) {
                     let pins = vec![
@@ -196,7 +213,7 @@ pub fn run(tier: Tier, seed: u64) -> i32 {
         seed,
         rule: "every program of the space that yields at least one row x every layout with at most 2 deviations from the canonical one-statement-per-line layout; the expected line of each row is recorded by the generator when it lays the text out; dynamic API, static API (when the program is static) and the same text loaded through a generated .dig document; non-trivial = at least one deviation".into(),
         assumptions: vec!["the generating printer (layout.rs) is the oracle for line numbers; only the line field is compared here".into()],
-        required_witnesses: vec!["blank_line_before_header", "comment_line_inserted", "blank_line_inserted", "crlf", "trailing_comment", "no_final_newline", "static_api_lines_compared", "loaded_from_dig_document"],
+        required_witnesses: vec!["blank_line_before_header", "comment_line_inserted", "blank_line_inserted", "crlf", "trailing_comment", "no_final_newline", "static_api_lines_compared", "loaded_from_dig_document", "companion_iterator_advanced_in_between"],
         exhaustive_note: "all programs x all layouts within the bounds (K=4 in the thorough tier with single deviations)".into(),
         e1: false,
     };
